@@ -228,6 +228,26 @@ func runC16x(c c16Case, info *c16Info) *vstat.Failure {
 			exists = false
 			live = 0
 			endGeneration()
+		case "replace-between-wakes":
+			// the file is removed and another one created under its name, with the
+			// pattern poller looking in between and afterwards, all before the stream
+			// wakes: one stream goes on, with the new file from its start
+			must(os.Remove(path))
+			endGeneration()
+			pollPatterns := func() {
+				pw.Broadcast()
+				await(5*time.Second, func() bool { return pw.Waiting() == len(patterns) })
+			}
+			pollPatterns()
+			f, err := os.Create(path)
+			must(err)
+			f.Close()
+			if st.N%2 == 1 {
+				seq++
+				appendData(fmt.Sprintf("L%d\nL%d\n", seq, seq+1))
+				seq++
+			}
+			pollPatterns()
 		case "delete-recreate":
 			// the file is removed, the stream notices and ends, and the file is
 			// there again before any pattern poll has seen the path missing
@@ -334,11 +354,11 @@ func c16RunRaw(raw json.RawMessage) *vstat.Failure {
 }
 
 func TestC16(t *testing.T) {
-	st := vstat.New("C16", "histories on a real file tailed through tailer.New (its absolute path, optionally also named by one or two overlapping glob patterns) with harness-controlled wakers: append line / CRLF line / line with bytes that are not UTF-8 / several lines in one write / unterminated fragment / completion of a fragment / a burst of fixed-width records filling the 128 KiB read buffer exactly once or twice, truncate in place, rename+create, copy+truncate, delete, re-create (empty), delete and re-create between two pattern polls (the stream has seen the deletion, the pattern poller has not), poll without change; the file may pre-exist with content incl. half a line or not exist at first. After every step the tailer is made to observe it (stream wake barrier, pattern poll barrier, log_count) and the delivered lines must equal the model's sequence exactly; finally tailing is stopped. non-trivial = a fragment pending when a generation ends, or >= 2 generation changes; distinct by history")
+	st := vstat.New("C16", "histories on a real file tailed through tailer.New (its absolute path, optionally also named by one or two overlapping glob patterns) with harness-controlled wakers: append line / CRLF line / line with bytes that are not UTF-8 / several lines in one write / unterminated fragment / completion of a fragment / a burst of fixed-width records filling the 128 KiB read buffer exactly once or twice, truncate in place, rename+create, copy+truncate, delete, re-create (empty), delete and re-create between two pattern polls (the stream has seen the deletion, the pattern poller has not), replace the file between two stream wakes with pattern polls in between (the pattern poller has seen the path missing, the stream has not), poll without change; the file may pre-exist with content incl. half a line or not exist at first. After every step the tailer is made to observe it (stream wake barrier, pattern poll barrier, log_count) and the delivered lines must equal the model's sequence exactly; finally tailing is stopped. non-trivial = a fragment pending when a generation ends, or >= 2 generation changes; distinct by history")
 	st.Assumptions = []string{"a step counts as observed when every live stream and the pattern poller are back in Wake() and log_count matches the model", "every line carries a sequence number, so loss, duplication, merging and reordering are told apart"}
 	st.Run(t, c16RunRaw, func() {
 		ops := []string{"line", "line", "crlf", "multi", "frag", "frag", "complete", "truncate", "rotate", "copytruncate", "delete", "recreate", "poll",
-			"line", "line", "crlf", "multi", "frag", "frag", "complete", "truncate", "rotate", "copytruncate", "delete", "recreate", "poll", "burst", "binary", "binary", "delete-recreate"}
+			"line", "line", "crlf", "multi", "frag", "frag", "complete", "truncate", "rotate", "copytruncate", "delete", "recreate", "poll", "burst", "binary", "binary", "delete-recreate", "replace-between-wakes"}
 		var drop []string
 		if st.IsLive("C16-1") { // fragment re-delivered after truncation
 			drop = append(drop, "C16-1")
